@@ -36,7 +36,30 @@ CHECKS = {
     'code/utils/blank_counter.rs': ['C16'],
     'code/list.rs': ['C16', 'C15', 'C17', 'C01'],
     'chiritori.rs': ['C18', 'C15', 'C03'],
+    '../../chiritori-cli/src/main.rs': ['C20', 'C06', 'C05'],
 }
+# hand-written mutants for code the regex operators do not reach (clap attributes, iterator chains): (file, old, new)
+EXPLICIT = [
+    ('../../chiritori-cli/src/main.rs', 'default_value = "time-limited"', 'default_value = "time_limited"'),
+    ('../../chiritori-cli/src/main.rs', 'default_value = "removal-marker"', 'default_value = "removal_marker"'),
+    ('../../chiritori-cli/src/main.rs', 'default_value = "<!-- <"', 'default_value = "<!--<"'),
+    ('../../chiritori-cli/src/main.rs', 'default_value = "> -->"', 'default_value = ">-->"'),
+    ('../../chiritori-cli/src/main.rs', 'default_value = "+00:00"', 'default_value = "+09:00"'),
+    ('../../chiritori-cli/src/main.rs', '        .chain(args.removal_marker_target_name)\n', ''),
+    ('../../chiritori-cli/src/main.rs', '.map_while(Result::ok)', '.map_while(Result::ok).map(|l| l.trim().to_string())'),
+    ('../../chiritori-cli/src/main.rs', '.map_while(Result::ok)', '.map_while(Result::ok).filter(|l| !l.is_empty())'),
+    ('../../chiritori-cli/src/main.rs', '.map_while(Result::ok)', '.map_while(Result::ok).skip(1)'),
+    ('../../chiritori-cli/src/main.rs', 'let output = if args.list {', 'let output = if args.list && !args.list_all {'),
+    ('../../chiritori-cli/src/main.rs', '} else if args.list_all {', '} else if args.list_all && !args.list_json {'),
+    ('../../chiritori-cli/src/main.rs', 'parse::<chrono::DateTime<chrono::Local>>()\n                .unwrap_or(chrono::Local::now())',
+     'parse::<chrono::DateTime<chrono::Utc>>()\n                .map(|t| t.with_timezone(&chrono::Local))\n                .unwrap_or(chrono::Local::now())'),
+    ('../../chiritori-cli/src/main.rs', 'print!("{}", output);', 'println!("{}", output);'),
+    ('../../chiritori-cli/src/main.rs', 'print!("{}", output);', 'print!("{}", output.trim_end());'),
+    ('../../chiritori-cli/src/main.rs', 'f.write_all(output.as_bytes())', 'f.write_all(output.trim_start().as_bytes())'),
+    ('../../chiritori-cli/src/main.rs', 'tag_name: args.removal_marker_tag_name,', 'tag_name: args.removal_marker_tag_name.to_lowercase(),'),
+    ('../../chiritori-cli/src/main.rs', 'time_offset: args.time_limited_time_offset,', 'time_offset: String::from("+00:00"),'),
+    ('../../chiritori-cli/src/main.rs', '(args.delimiter_start, args.delimiter_end), config)', '(args.delimiter_start.trim().to_string(), args.delimiter_end), config)'),
+]
 RULES = [
     (r'(?<![<>=!])<=(?!=)', ['<', '==']), (r'(?<![<>=!-])>=(?!=)', ['>', '==']),
     (r'(?<![<>=!&|-])\s<\s(?![<=])', [' <= ', ' > ']), (r'(?<![<>=!&|-])\s>\s(?![>=])', [' >= ', ' < ']),
@@ -47,6 +70,7 @@ RULES = [
     (r"b' '", ["b'\\t'"]), (r"b'\\t'", ["b' '"]), (r"b'\\n'", ["b' '"]), (r"' '", ["'\\n'"]), (r"'\\n'", ["' '"]),
     (r'\.is_none\(\)', ['.is_some()']), (r'\.is_some\(\)', ['.is_none()']), (r'\.is_empty\(\)', ['.is_empty() == false']),
     (r'\bSome\((\w+)\) =>', None), (r'\.rev\(\)', ['']), (r'\bsaturating_sub\b', ['wrapping_sub']),
+    (r'unwrap_or\(0\)', ['unwrap_or(1)']), (r'\bcontinue;', ['break;']),
     (r'pause_on_char', None), (r'\bNone => 0\b', ['None => 1']), (r'\.any\(', ['.all(']), (r'\.iter\(\)\.find\(', None),
 ]
 
@@ -75,6 +99,12 @@ def mutants_of(path, text):
                     new = code[:m.start()] + r + code[m.end():] + line[len(code):]
                     if new != line:
                         out.append((ln, line, new, f'{m.group(0).strip()} -> {r.strip()}'))
+    depth_ok = lambda t: t.count('(') == t.count(')') and t.count('{') == t.count('}') and t.count('[') == t.count(']')
+    for ln, line in enumerate(lines):
+        t = line.strip()
+        if (t.endswith(';') and depth_ok(t) and not t.startswith(('let ', 'use ', 'return', 'break', 'continue', 'pub ', 'const ', 'type ', '//', 'fn ', 'extern '))
+                and not t.startswith('}') and (ln == 0 or lines[ln - 1].rstrip().endswith(('{', ';', '}')))):
+            out.append((ln, line, '', 'delete statement: ' + t[:60]))
     return out
 
 
@@ -84,6 +114,7 @@ def main():
     ap.add_argument('--limit', type=int, default=10 ** 9)
     ap.add_argument('--out', default='/tmp/mutsweep.json')
     ap.add_argument('--seed', type=int, default=0)
+    ap.add_argument('--only-new', action='store_true', help='only the operators added after the first sweep (statement deletion, explicit, unwrap_or, continue)')
     ap.add_argument('--recheck', help='JSON of an earlier sweep: re-run only the survivors that no check caught, with the current checks (+C04)')
     a = ap.parse_args()
     shutil.rmtree(SCR, ignore_errors=True)
@@ -96,8 +127,15 @@ def main():
         text = open(p).read()
         for ln, old, new, desc in mutants_of(p, text):
             allm.append((f, ln, old, new, desc))
+        for ef, eold, enew in EXPLICIT:
+            if ef == f:
+                eold, enew = eold.replace('\\n', '\n'), enew.replace('\\n', '\n')
+                assert text.count(eold) == 1, (ef, eold)
+                allm.append((f, -1, eold, enew, 'explicit: ' + eold.strip()[:40] + ' -> ' + enew.strip()[:60]))
     random.Random(a.seed).shuffle(allm)
     allm = allm[:a.limit]
+    if a.only_new:
+        allm = [m for m in allm if m[4].startswith(('delete statement', 'explicit', 'unwrap_or', 'continue'))]
     if a.recheck:
         prev = json.load(open(a.recheck))
         want = {(r['file'], r['line'], r['new']) for r in prev if r['suite'] == 'survived' and not r.get('caught')}
@@ -111,10 +149,13 @@ def main():
     for k, (f, ln, old, new, desc) in enumerate(allm):
         p = f'{SCR}/chiritori/src/{f}'
         text = open(p).read()
-        lines = text.split('\n')
-        assert lines[ln] == old
-        lines[ln] = new
-        open(p, 'w').write('\n'.join(lines))
+        if ln < 0:
+            open(p, 'w').write(text.replace(old, new))
+        else:
+            lines = text.split('\n')
+            assert lines[ln] == old
+            lines[ln] = new
+            open(p, 'w').write('\n'.join(lines))
         rec = dict(file=f, line=ln + 1, change=desc, old=old.strip(), new=new.strip())
         try:
             rc, out = sh('timeout 120 cargo test --workspace --offline 2>&1 | grep -E "^test result|^error|FAILED|panicked" | head -5', cwd=SCR, timeout=400)
